@@ -112,7 +112,16 @@ def check_requirement_tables(ctx):
     # ---------------------------------------------------------------- sequence (members of a required sequence)
     sq = sm.func(None, '_check_if_sequence_requires_elements', T.M_CONTAINER)
     sp = sq.params[0]
-    member_loops = [n for st in sq.node.body if isinstance(st, ast.If) and f"{sp}.min_occurrences" in unparse(st.test) for n in st.body if isinstance(n, ast.For)]
+    # the loop over the members that runs when the sequence itself is required: nested in `if seq.min_occurrences > 0:` or placed after the guard
+    # clause `if seq.min_occurrences <= 0: return` - in the CFG both are a loop guarded by an atom about seq.min_occurrences
+    from ..cfg import cfg_of as _cfg_of
+    from . import dom as _dom
+    gsq = _cfg_of(sq.node)
+    member_loops = []
+    for ln in gsq.stmt_nodes():
+        if ln.kind == 'for' and unparse(ln.stmt.iter) == f"{sp}.get_children()":
+            if any(t.kind == 'test' and f"{sp}.min_occurrences" in unparse(t.ast) for t, _lab in _dom.guards_of(gsq, ln)):
+                member_loops.append(ln.stmt)
     if len(member_loops) != 1:
         raise AnalysisError(f"{sq.fq}: expected one member loop under the minOccurs test, found {len(member_loops)}")
     loop = member_loops[0]
@@ -133,10 +142,14 @@ def check_requirement_tables(ctx):
             res.check(result[0] != 'raise' and not calls, 'R-EXH.validate-started', sq.fq, f"[sequence member: {label}] is skipped", fail_detail=f"calls {calls}", key=key,
                       line=loop.lineno)
     # the started-sequence loop: every non-leaf member is validated, every leaf compared with its minOccurs (R-ORD)
-    started_ifs = [st for st in sq.node.body if isinstance(st, ast.If) and unparse(st.test) in (f"{sp}.force_validate", f"{sp}.force_validate is True")]
+    started_loops = []
+    for ln in gsq.stmt_nodes():
+        if ln.kind == 'for' and unparse(ln.stmt.iter) == f"{sp}.get_children()":
+            if any(t.kind == 'test' and unparse(t.ast) in (f"{sp}.force_validate", f"{sp}.force_validate is True") and lab == 'T' for t, lab in _dom.guards_of(gsq, ln)):
+                started_loops.append(ln.stmt)
     ok = False
-    for st in started_ifs:
-        for lp in [n for n in st.body if isinstance(n, ast.For)]:
+    for st in [None]:
+        for lp in started_loops:
             c2 = unparse(lp.target)
             r, eff, _ = _evaluate(lp.body, sq.fq, {f"isinstance({c2}.content, XSDElement)": False})
             ok = ok or dispatcher in _calls(eff)
